@@ -53,6 +53,46 @@ impl FluentType for Custom {
     }
 }
 
+/// custom value whose string form goes through the bundle's formatter memoizer (a `Memoizable` that may fail
+/// to construct): `[tag]`, or `!err` when the tag starts with `bad`
+#[derive(Debug, PartialEq, Clone)]
+pub struct MemoCustom(pub String);
+
+pub struct TagFormatter(String);
+
+impl intl_memoizer::Memoizable for TagFormatter {
+    type Args = (String,);
+    type Error = ();
+    fn construct(_lang: unic_langid::LanguageIdentifier, args: Self::Args) -> Result<Self, Self::Error> {
+        if args.0.starts_with("bad") {
+            Err(())
+        } else {
+            Ok(TagFormatter(format!("[{}]", args.0)))
+        }
+    }
+}
+
+impl FluentType for MemoCustom {
+    fn duplicate(&self) -> Box<dyn FluentType + Send> {
+        Box::new(self.clone())
+    }
+    fn as_string(&self, intls: &intl_memoizer::IntlLangMemoizer) -> Cow<'static, str> {
+        intls
+            .with_try_get::<TagFormatter, _, _>((self.0.clone(),), |f| f.0.clone())
+            .unwrap_or_else(|_| "!err".to_string())
+            .into()
+    }
+    fn as_string_threadsafe(
+        &self,
+        intls: &intl_memoizer::concurrent::IntlLangMemoizer,
+    ) -> Cow<'static, str> {
+        intls
+            .with_try_get::<TagFormatter, _, _>((self.0.clone(),), |f| f.0.clone())
+            .unwrap_or_else(|_| "!err".to_string())
+            .into()
+    }
+}
+
 /// canonical observation of a value (see FluentModel/Drv/Common.lean `canonVal`)
 pub fn canon_val(v: &FluentValue) -> String {
     match v {
@@ -62,6 +102,8 @@ pub fn canon_val(v: &FluentValue) -> String {
         FluentValue::Custom(c) => {
             if let Some(c) = c.as_any().downcast_ref::<Custom>() {
                 format!("C{}", hex_enc(c.0.as_bytes()))
+            } else if let Some(c) = c.as_any().downcast_ref::<MemoCustom>() {
+                format!("C{}", hex_enc(format!("memo:{}", c.0).as_bytes()))
             } else {
                 "C?".to_string()
             }
@@ -97,6 +139,7 @@ pub enum Tok {
     Try(String),  // t
     Num(f64, Option<usize>), // n
     Cust(String), // c
+    Memo(String), // m
     Nil,          // z
 }
 
@@ -106,6 +149,7 @@ pub fn parse_tok(t: &str) -> Option<Tok> {
         "s" => Tok::Str(hex_str(r)?),
         "o" => Tok::Own(hex_str(r)?),
         "c" => Tok::Cust(hex_str(r)?),
+        "m" => Tok::Memo(hex_str(r)?),
         "t" => Tok::Try(hex_str(r)?),
         "i" => Tok::Int(r.parse().ok()?),
         "u" => Tok::U8(r.parse().ok()?),
@@ -136,6 +180,7 @@ pub fn tok_value<'a>(t: &'a Tok) -> FluentValue<'a> {
             },
         )),
         Tok::Cust(s) => FluentValue::Custom(Box::new(Custom(s.clone()))),
+        Tok::Memo(s) => FluentValue::Custom(Box::new(MemoCustom(s.clone()))),
         Tok::Nil => FluentValue::from(Option::<&str>::None),
     }
 }
